@@ -293,7 +293,38 @@ def _jsonable(v):
 
 
 def top_kind_of_rejection(shape, v):
+    if _empty_dict_at_dc_or_dict_union(shape, v):
+        return "F45-empty-mapping-under-Union-of-dataclass-and-dict"
     return shape[0]
+
+
+def _empty_dict_at_dc_or_dict_union(shape, v):
+    """{} at a position typed Union[<dataclass with a required field>, Dict[...]] (F45: the lenient first pass commits to the dataclass
+    member and turns {} into an empty Namespace, which the strict pass can then give to neither member)"""
+    k = shape[0]
+    if k == "opt":
+        return v is not None and _empty_dict_at_dc_or_dict_union(shape[1], v)
+    if k == "union":
+        ms = G_flat_members(shape)
+        if v == {} and any(m[0] == "dc" and any(not f[2] for f in m[2]) for m in ms) and any(m[0] in ("dict", "dictint") for m in ms):
+            return True
+        return False
+    if k in ("list", "seq", "tuplevar", "set") and isinstance(v, list):
+        return any(_empty_dict_at_dc_or_dict_union(shape[1], x) for x in v)
+    if k in ("dict", "dictint") and isinstance(v, dict):
+        return any(_empty_dict_at_dc_or_dict_union(shape[1], x) for x in v.values())
+    if k == "tuple" and isinstance(v, list):
+        return any(_empty_dict_at_dc_or_dict_union(t, x) for t, x in zip(shape[1:], v))
+    if k == "dc" and isinstance(v, dict):
+        f = {x[0]: x[1] for x in shape[2]}
+        return any(n in f and _empty_dict_at_dc_or_dict_union(f[n], x) for n, x in v.items())
+    return False
+
+
+def G_flat_members(shape):
+    if shape[0] in ("union", "opt"):
+        return [x for m in shape[1:] for x in G_flat_members(m)]
+    return [shape]
 
 
 def classify_nonconforming(shape, given, result, channel):
